@@ -429,12 +429,26 @@ func c13fieldFlow(fn *ssa.Function, base ssa.Value, init iset, iv *c13ivals, isW
 		return ok && fa.X == base && fieldName(fa.X.Type(), fa.Field) == "RedirectCode"
 	}
 	res := &fieldIvals{in: map[*ssa.BasicBlock]iset{}, at: map[ssa.Instruction]iset{}}
+	// alias: the SSA values known to equal the field's current value - the value last stored and every load of the
+	// field since then. They are carried along the edges (a value counts at a merge when it does on every incoming
+	// edge), so that `code := t.RedirectCode` loaded once and compared in several later blocks refines the field as
+	// well as a fresh load in every comparison does.
 	type edgeState struct {
 		v     iset
-		eq    ssa.Value
 		alias map[ssa.Value]bool
 	}
-	inEq := map[*ssa.BasicBlock]ssa.Value{}
+	sameSet := func(a, b map[ssa.Value]bool) bool {
+		if len(a) != len(b) {
+			return false
+		}
+		for k := range a {
+			if !b[k] {
+				return false
+			}
+		}
+		return true
+	}
+	inAlias := map[*ssa.BasicBlock]map[ssa.Value]bool{}
 	out := map[*ssa.BasicBlock]map[*ssa.BasicBlock]edgeState{}
 	work := []*ssa.BasicBlock{fn.Blocks[0]}
 	res.in[fn.Blocks[0]] = init
@@ -444,10 +458,9 @@ func c13fieldFlow(fn *ssa.Function, base ssa.Value, init iset, iv *c13ivals, isW
 		work = work[1:]
 		visited[b] = true
 		cur := res.in[b]
-		eq := inEq[b]
 		alias := map[ssa.Value]bool{}
-		if eq != nil {
-			alias[eq] = true
+		for k := range inAlias[b] {
+			alias[k] = true
 		}
 		for _, in := range b.Instrs {
 			res.at[in] = cur
@@ -455,11 +468,10 @@ func c13fieldFlow(fn *ssa.Function, base ssa.Value, init iset, iv *c13ivals, isW
 			case *ssa.Store:
 				if isField(x.Addr) {
 					alias = map[ssa.Value]bool{x.Val: true}
-					eq = x.Val
 					cur = iv.at(x.Val, b, nil)
 				} else if x.Addr == base {
 					// the whole struct is overwritten: a zero value / literal is 0, a copy of another target is in range by induction
-					alias, eq = map[ssa.Value]bool{}, nil
+					alias = map[ssa.Value]bool{}
 					cur = c13want
 				}
 			case *ssa.UnOp:
@@ -470,7 +482,7 @@ func c13fieldFlow(fn *ssa.Function, base ssa.Value, init iset, iv *c13ivals, isW
 				if sc := x.Call.StaticCallee(); sc != nil && isWriter != nil && isWriter(unwrap(sc)) {
 					for _, a := range x.Call.Args {
 						if a == base {
-							alias, eq = map[ssa.Value]bool{}, nil
+							alias = map[ssa.Value]bool{}
 							cur = cur.union(c13want)
 						}
 					}
@@ -500,23 +512,31 @@ func c13fieldFlow(fn *ssa.Function, base ssa.Value, init iset, iv *c13ivals, isW
 			if out[b] == nil {
 				out[b] = map[*ssa.BasicBlock]edgeState{}
 			}
-			out[b][s] = edgeState{v, eq, alias}
+			out[b][s] = edgeState{v, alias}
 			var nin iset
-			var neq ssa.Value
-			first := true
+			var nal map[ssa.Value]bool
 			for _, p := range s.Preds {
-				if e, ok := out[p][s]; ok {
-					nin = nin.union(e.v)
-					if first {
-						neq, first = e.eq, false
-					} else if neq != e.eq {
-						neq = nil
+				e, ok := out[p][s]
+				if !ok {
+					continue
+				}
+				nin = nin.union(e.v)
+				if nal == nil {
+					nal = map[ssa.Value]bool{}
+					for a := range e.alias {
+						nal[a] = true
+					}
+				} else {
+					for a := range nal {
+						if !e.alias[a] {
+							delete(nal, a)
+						}
 					}
 				}
 			}
-			if !visited[s] || !nin.eq(res.in[s]) || inEq[s] != neq {
+			if !visited[s] || !nin.eq(res.in[s]) || !sameSet(inAlias[s], nal) {
 				res.in[s] = nin
-				inEq[s] = neq
+				inAlias[s] = nal
 				work = append(work, s)
 			}
 		}
